@@ -19,7 +19,8 @@ RULE = ("seeded random integer data matrices (families: latent-factor correlated
         "mode, one common exponent in covariance mode; outputs descaled exactly) --, independent columns, exactly rank-deficient, repeated eigenvalues (Walsh patterns)), 2<=m<=12 "
         "(thorough <=40), 1<=p<=4 (thorough <=8), both m>p (SVD path) and m<=p (covariance/EVD path); every 1<=k<=p in "
         "covariance and correlation mode; truncated SVD for every k<p and the rejected k=p; three query rows transformed "
-        "stacked and separately; one data set in eight through the api traits UnsupervisedEstimator::fit / Transformer::transform; "
+        "stacked and separately; graded family (covariance mode and truncated SVD, p in 3..4: columns times 2^0 / 2^-300 / 2^-600, judged with the graded "
+        "columns as exact zeros); one data set in eight through the api traits UnsupervisedEstimator::fit / Transformer::transform; "
         "size ladder m in {63,64,65,255,256,257,1023,1024,1025} (thorough also 127..129, 511..513) of three-valued columns. "
         "Non-trivial = p>=2 and the data are not already axis-aligned (the projection has an "
         "off-diagonal entry above 2^-4), or a rejected k=p; distinct = distinct (X, mode, k)")
@@ -40,10 +41,12 @@ def nontrivial(e):
 def key_of(e, clause):
     shape = "m>p" if e["m"] > e["p"] else "m<=p"
     if e["ev"] == "Pca":
-        return "pca %s %s %s k%sp fam=%s%s" % (e["mode"], clause, shape, "=" if e["k"] == e["p"] else "<", e["fam"].replace("/offset", "").replace("/colscale", ""),
+        return "pca %s %s %s k%sp fam=%s%s" % (e["mode"], clause, shape, "=" if e["k"] == e["p"] else "<", e["fam"].replace("/offset", "").replace("/colscale", "").replace("/graded", ""),
                                                " offsets 2^20..2^30" if any(e.get("off", [])) else
-                                               " columns scaled by 2^-40..2^30" if any(e.get("cexp", [])) else "")
-    return "tsvd %s %s k%sp fam=%s" % (clause, shape, "=" if e["k"] == e["p"] else "<", e["fam"])
+                                               " columns scaled by 2^-40..2^30" if any(e.get("cexp", [])) else
+                                               " columns graded 2^0/2^-300/2^-600" if any(e.get("gexp", [])) else "")
+    return "tsvd %s %s k%sp fam=%s%s" % (clause, shape, "=" if e["k"] == e["p"] else "<", e["fam"].replace("/graded", ""),
+                                         " columns graded 2^0/2^-300/2^-600" if any(e.get("gexp", [])) else "")
 
 
 def run(ctx):
@@ -57,7 +60,8 @@ def run(ctx):
                                       "Pca_corr_k", "Pca_corr_full", "Tsvd", "TsvdReject",
                                       "Offset_cov_svd", "Offset_cov_evd", "Offset_corr",
                                       "Scaled_cov_svd", "Scaled_cov_evd", "Scaled_corr_tall", "Scaled_corr_wide",
-                                      "Entry_api", "Rows_63_257", "Rows_1023_1025"))
+                                      "Entry_api", "Rows_63_257", "Rows_1023_1025",
+                                      "Graded_cov_svd", "Graded_cov_evd", "Graded_tsvd"))
     hits = v.get("hits", {})
     for (l, runid, ev, clause) in bads:
         e = events[l - 1]
